@@ -94,13 +94,13 @@ func c17(c *core.Check) {
 	r1 := c.Rule("R1", "matrix package: Translation, Scaling, Rotation, Skew, Identity, New, Determinant, mult/Mul/Mul3, LeftMultBy, RightMultBy, Apply, Invert and the in-place Translate/Scale/Rotate/Skew have the specification normal forms", 16)
 	c17Matrix(c, r1)
 
-	r2 := c.Rule("R2", "CSS plumbing: names emitted by validation.transformFunction are the cases of document.getMatrix; the largest argument index each case reads is below the length of the Dimensions the validator emits for that name; single-axis forms put their argument on the right axis; getMatrix passes args[i] as i-th argument, composes with RightMultBy in list order, starts from the translation by the origin and ends with the translation by its negation", 20)
+	r2 := c.Rule("R2", "CSS plumbing: names emitted by validation.transformFunction are the cases of document.getMatrix; the largest argument index each case reads is below the length of the Dimensions the validator emits for that name; single-axis forms put their argument on the right axis; getMatrix passes args[i] as i-th argument, composes with RightMultBy in list order, starts from the translation by the origin and ends with the translation by its negation", 29)
 	c17CSS(c, r2)
 
 	r3 := c.Rule("R3", "SVG plumbing: parseTransform's kind/arity table is SVG 1.1 §7.6 (rotate 1|3, translate 1|2, skewX 1, skewY 1, scale 1|2, matrix 6); transform.applyTo, folded per kind, right-multiplies by the specification matrix with degrees converted to radians", 14)
 	c17SVG(c, r3)
 
-	r4 := c.Rule("R4", "validation.ANGLETORADIANS = {rad:1, turn:2π, deg:π/180, grad:π/200} and AngleUnits names map to the same-named units", 8)
+	r4 := c.Rule("R4", "validation.ANGLETORADIANS = {rad:1, turn:2π, deg:π/180, grad:π/200} and AngleUnits names map to the same-named units", 10)
 	c17Angles(c, r4)
 }
 
@@ -909,7 +909,7 @@ func c17Angles(c *core.Check, r *core.Rule) {
 // c17Determinant: invertibility is `determinant != 0`; a reflection has a negative determinant and is invertible.
 func c17Determinant(c *core.Check) {
 	p := c.Prog
-	r := c.Rule("R5", "every test of a matrix determinant in the module compares it with 0 by == or != (a transform with a negative determinant, a reflection, is invertible and must be applied)", 2)
+	r := c.Rule("R5", "every test of a matrix determinant in the module compares it with 0 by == or != (a transform with a negative determinant, a reflection, is invertible and must be applied)", 3)
 	n := 0
 	for _, fn := range p.ModFuncs {
 		core.Instrs(fn, func(in ssa.Instruction) {
